@@ -29,10 +29,15 @@
 (*   M4  a report through a relay is tagged with the relay;                *)
 (*   M5  a report to a full channel blocks its sender: the environment of  *)
 (*       this model does not send one (the wedge replay does).             *)
+(* Subscribe / Unsubscribe of an Auto leaf are the start and the stop of   *)
+(* its LocalCollector.                                                     *)
 (***************************************************************************)
 EXTENDS Naturals, Sequences, FiniteSets, TLC
 
 CONSTANTS Leaves, Relays, Home,      \* Home[c] \in {"S"} \cup Relays
+          Auto,                      \* leaves that are real LocalCollectors over a scripted keeper (at most one per node):
+                                     \* handed a targeted (signature) task they answer it at once with the report named
+                                     \* after them; handed a quality task they find nothing and stay silent
           TaskIds, Payloads, QCap
 
 VARIABLE R
@@ -47,12 +52,18 @@ Init == R = [lsubs |-> {}, conn |-> [r \in Relays |-> FALSE], rsubs |-> [r \in R
              got |-> [c \in Leaves |-> [t \in TaskIds |-> 0]]]
 
 Give(x, cs, t) == [x EXCEPT !.got = [c \in Leaves |-> IF c \in cs THEN [x.got[c] EXCEPT ![t] = @ + 1] ELSE x.got[c]]]
+Src(c) == IF Home[c] = "S" THEN c ELSE Home[c]                    \* M4
+\* the Auto leaf among cs (if any) answers the targeted task t: its report reaches the waiter through its node
+Answer(x, cs, t) == LET as == cs \cap Auto IN
+                    IF as = {} \/ x.tasks[t].kind # "target" \/ ~x.tasks[t].open THEN x
+                    ELSE LET c == CHOOSE c \in as : TRUE IN [x EXCEPT !.tasks[t].q[Src(c)] = Append(@, c)]
 \* relay r receives task t from S (M1, M2)
-RelayRecv(x, r, t) == Give(IF x.tasks[t].kind = "bcast" THEN [x EXCEPT !.rlatest[r] = t] ELSE x, x.rsubs[r], t)
+RelayRecv(x, r, t) == Answer(Give(IF x.tasks[t].kind = "bcast" THEN [x EXCEPT !.rlatest[r] = t] ELSE x, x.rsubs[r], t), x.rsubs[r], t)
 RECURSIVE RelaysRecv(_, _, _)
 RelaysRecv(x, rs, t) == IF rs = {} THEN x ELSE LET r == CHOOSE r \in rs : TRUE IN RelaysRecv(RelayRecv(x, r, t), rs \ {r}, t)
 Connected(x) == {r \in Relays : x.conn[r]}
 
+Subscribed(x, c) == IF Home[c] = "S" THEN c \in x.lsubs ELSE c \in x.rsubs[Home[c]]
 CanSubscribe(x, c) == IF Home[c] = "S" THEN TRUE ELSE x.conn[Home[c]]
 Subscribe(x, c) ==
   IF Home[c] = "S" THEN (LET y == [x EXCEPT !.lsubs = @ \cup {c}] IN IF x.latest # None THEN Give(y, {c}, x.latest) ELSE y)
@@ -72,14 +83,13 @@ AddBroadcast(x, t) ==
 AddTarget(x, t, tg) ==
   LET y == [x EXCEPT !.tasks[t] = [kind |-> "target", target |-> tg, open |-> TRUE, q |-> EmptyQ]]
   IN IF tg \in Relays THEN (IF y.conn[tg] THEN RelayRecv(y, tg, t) ELSE y)
-     ELSE Give(y, y.lsubs \cap {tg}, t)
+     ELSE Answer(Give(y, y.lsubs \cap {tg}, t), y.lsubs \cap {tg}, t)
 
 Accepts(x, t) == x.tasks[t] # NoTask /\ x.tasks[t].open
 RECURSIVE SumLen(_, _)
 SumLen(q, S) == IF S = {} THEN 0 ELSE LET s == CHOOSE s \in S : TRUE IN Len(q[s]) + SumLen(q, S \ {s})
 Unread(x, t) == SumLen(x.tasks[t].q, Sources)
 Blocks(x, t) == Accepts(x, t) /\ Unread(x, t) >= QCap
-Src(c) == IF Home[c] = "S" THEN c ELSE Home[c]                    \* M4
 CanReport(x, c) == IF Home[c] = "S" THEN TRUE ELSE x.conn[Home[c]]
 Report(x, c, t, p) == IF Accepts(x, t) THEN [x EXCEPT !.tasks[t].q[Src(c)] = Append(@, p)] ELSE x      \* M3
 CanTake(x, t, s) == x.tasks[t] # NoTask /\ x.tasks[t].q[s] # <<>>
@@ -90,7 +100,7 @@ RemoveTask(x, t) == IF x.tasks[t] = NoTask THEN x
 Next == \/ \E c \in Leaves : (CanSubscribe(R, c) /\ R' = Subscribe(R, c)) \/ R' = Unsubscribe(R, c)
         \/ \E r \in Relays : (CanConnect(R, r) /\ R' = Connect(R, r)) \/ R' = Disconnect(R, r)
         \/ \E t \in TaskIds : CanAdd(R, t) /\ (R' = AddBroadcast(R, t) \/ \E tg \in Sources : R' = AddTarget(R, t, tg))
-        \/ \E c \in Leaves, t \in TaskIds, p \in Payloads : CanReport(R, c) /\ ~Blocks(R, t) /\ R' = Report(R, c, t, p)
+        \/ \E c \in Leaves \ Auto, t \in TaskIds, p \in Payloads : CanReport(R, c) /\ ~Blocks(R, t) /\ R' = Report(R, c, t, p)
         \/ \E t \in TaskIds, s \in Sources : CanTake(R, t, s) /\ R' = Take(R, t, s)
         \/ \E t \in TaskIds : R' = RemoveTask(R, t)
 Spec == Init /\ [][Next]_R
